@@ -51,6 +51,10 @@ def check_equiv(inp):
   php = cds.PaddedBatchHParams(batch_size=3)
   ref = run(fed_avg.federated_averaging(grad_fn, copt, sopt, hp), rounds)
   if which == 'fedprox0':
+    if inp.get('sweep'):
+      # a sweep over proximal weights in one process, same loss / optimizer objects: every instance uses ITS OWN weight
+      other = fed_prox.fed_prox(pel, copt, sopt, hp, 2.0)
+      other.apply(other.init(params0()), clients_for(0, rounds[0]))
     got = run(fed_prox.fed_prox(pel, copt, sopt, hp, 0.0), rounds)
   elif which == 'fedprox_pos':
     mu = 0.3
@@ -167,6 +171,7 @@ def sweep_equiv(tier, seed):
   yield dict(which='hyp1', copt='sgd', rounds=R)
   yield dict(which='hyp1', copt='momentum', rounds=R)
   yield dict(which='hyp1_reg', copt='sgd', rounds=R)
+  yield dict(which='fedprox0', copt='sgd', rounds=R, sweep=True)
   yield dict(which='hyp1_drop', copt='momentum', rounds=[[1, 4], [3, 1, 1], [5, 2]])
   yield dict(which='mimelite', copt='sgd', rounds=R)
   yield dict(which='mimelite_pmap', copt='sgd', rounds=[[2, 4, 6], [4, 2]])
